@@ -383,3 +383,104 @@ Print Assumptions C07_no_other_key_opens_src.
 (* non-vacuity: RFC 7748's keys, HKDF-SHA256, AES-256-GCM through the translated store / retrieve / count_keys *)
 Check SrcTie3CryptoEx.src_ecies_roundtrip.
 Check SrcTie3CryptoEx.kdf_src_is_hkdf.
+
+(* ---------- work package cfgT: encryption is stacked iff enabled and only with a recipient; a reader without the key is refused before any layer constructor runs (nothing read past the header); builders extend the key lists (translated code, gen/Src3f.v) ---------- *)
+From MLA Require Config ConfigProofs SrcTie3Cfg SrcTie3CfgR SrcTie3CfgEx.
+From MLAGen Require Src3f.
+Theorem C07_cfg_writer_refuses_no_recipient_src : ltac:(let t := type of SrcTie3Cfg.writer_refuses_no_recipient_src in exact t).
+Proof. exact SrcTie3Cfg.writer_refuses_no_recipient_src. Qed.
+Print Assumptions C07_cfg_writer_refuses_no_recipient_src.
+Theorem C07_cfg_writer_from_config_src : ltac:(let t := type of SrcTie3Cfg.writer_from_config_src in exact t).
+Proof. exact SrcTie3Cfg.writer_from_config_src. Qed.
+Print Assumptions C07_cfg_writer_from_config_src.
+Theorem C07_cfg_add_public_keys_src : ltac:(let t := type of SrcTie3Cfg.add_public_keys_src in exact t).
+Proof. exact SrcTie3Cfg.add_public_keys_src. Qed.
+Print Assumptions C07_cfg_add_public_keys_src.
+Theorem C07_cfg_check_src : ltac:(let t := type of SrcTie3Cfg.check_src in exact t).
+Proof. exact SrcTie3Cfg.check_src. Qed.
+Print Assumptions C07_cfg_check_src.
+Theorem C07_cfg_add_private_keys_src : ltac:(let t := type of SrcTie3CfgR.add_private_keys_src in exact t).
+Proof. exact SrcTie3CfgR.add_private_keys_src. Qed.
+Print Assumptions C07_cfg_add_private_keys_src.
+Theorem C07_cfg_load_persistent_cfg_src : ltac:(let t := type of SrcTie3CfgR.load_persistent_cfg_src in exact t).
+Proof. exact SrcTie3CfgR.load_persistent_cfg_src. Qed.
+Print Assumptions C07_cfg_load_persistent_cfg_src.
+Theorem C07_cfg_reader_key_check_first_src : ltac:(let t := type of SrcTie3CfgR.reader_key_check_first_src in exact t).
+Proof. exact SrcTie3CfgR.reader_key_check_first_src. Qed.
+Print Assumptions C07_cfg_reader_key_check_first_src.
+Theorem C07_cfg_failsafe_key_check_first_src : ltac:(let t := type of SrcTie3CfgR.failsafe_key_check_first_src in exact t).
+Proof. exact SrcTie3CfgR.failsafe_key_check_first_src. Qed.
+Print Assumptions C07_cfg_failsafe_key_check_first_src.
+Theorem C07_cfg_reader_from_config_examples : ltac:(let t := type of SrcTie3CfgEx.reader_from_config_examples in exact t).
+Proof. exact SrcTie3CfgEx.reader_from_config_examples. Qed.
+Print Assumptions C07_cfg_reader_from_config_examples.
+(* ====================================================================================
+   Tie A level 1, work package encW (tools/src2v3_encw.py -> gen/Src3w.v): the WRITER side of encrypt.rs translated statement by
+   statement over the translated AesGcm256 (gen/Src3g.v); the layer theorems of "nothing in clear" and the distinctness of the
+   per-chunk nonces, with the TRANSLATED code as subject.
+   ==================================================================================== *)
+From MLA Require SrcTie3EncW SrcTie3EncWCarry SrcTie3EncWMasked SrcTie3EncWEx.
+From MLAGen Require Src3w.
+(* C07_body_is_keystream_masked_layer on the translated code: ANY list of write_all / flush calls, then finalize *)
+Theorem C07_body_is_keystream_masked_layer_src :
+  forall E, (forall k b, length b = 16%nat -> length (E k b) = 16%nat) ->
+  forall key prefix, len key = 32 -> len prefix = 8 ->
+  forall si sl gmul CHUNK CIPHERBUF, 0 < CHUNK -> forall is_interrupted, is_interrupted EState = false ->
+  forall ss base fuel cs x,
+    SrcTie3EncWMasked.src_archive_calls E key prefix si sl gmul CHUNK CIPHERBUF is_interrupted ss base fuel cs = Ok x ->
+    Src3w.elw_inner bytes x =
+    base ++ enc_format CHUNK (SrcTie3EncW.ks_gcm E key prefix) (SrcTie3EncW.tagc_gcm E key prefix gmul) (concat (writes_of cs)).
+Proof. exact SrcTie3EncWMasked.body_is_keystream_masked_layer_src. Qed.
+Print Assumptions C07_body_is_keystream_masked_layer_src.
+(* C07_write_emits_cipher_only on the translated code: one `write` appends to the inner writer at most one tag (a cipher output)
+   and then the accepted prefix of the buffer XORed with the key stream of the current chunk at the current offset *)
+Theorem C07_write_emits_cipher_only_src :
+  forall E, (forall k b, length b = 16%nat -> length (E k b) = 16%nat) ->
+  forall key prefix, len key = 32 -> len prefix = 8 ->
+  forall si sl gmul CHUNK CIPHERBUF, 0 < CHUNK -> forall is_interrupted, is_interrupted EState = false ->
+  forall ss base x s buf x' n,
+    SrcTie3EncW.Rw E key prefix gmul base x s ->
+    Src3w.elw_write CHUNK CIPHERBUF E gmul bytes SrcTie3EncW.bw_write_all ss si sl 228 x buf = (x', Ok n) ->
+    exists tagpart,
+      Src3w.elw_inner bytes x' = Src3w.elw_inner bytes x ++ tagpart ++
+        xor_from (SrcTie3EncW.ks_gcm E key prefix) (Src3w.elw_current_ctr bytes x')
+                 (Src3w.elw_current_chunk_offset bytes x' - n) (takeN n buf) /\
+      (tagpart = [] \/ exists ct, tagpart = SrcTie3EncW.tagc_gcm E key prefix gmul (Src3w.elw_current_ctr bytes x) ct) /\
+      n <= len buf.
+Proof. exact SrcTie3EncWMasked.write_emits_cipher_only_src. Qed.
+Print Assumptions C07_write_emits_cipher_only_src.
+(* C07_flush_emits_nothing on the translated code (over the byte vector; over any inner writer: C06_tie_encw_flush_src) *)
+Theorem C07_flush_emits_nothing_src : forall x : Src3w.EncryptionLayerWriter bytes,
+  Src3w.elw_flush bytes SrcTie3EncW.bw_ok x = (x, Ok tt).
+Proof. exact SrcTie3EncWMasked.flush_emits_nothing_src. Qed.
+Print Assumptions C07_flush_emits_nothing_src.
+(* the per-chunk nonces: the u32 counter of the translated struct never wraps, it ends as the number of chunks written,
+   and chunk indices below it give pairwise different nonces prefix || be32(index) *)
+Theorem C07_nonces_distinct_src :
+  forall E, (forall k b, length b = 16%nat -> length (E k b) = 16%nat) ->
+  forall key prefix, len key = 32 -> len prefix = 8 ->
+  forall si sl gmul CHUNK CIPHERBUF, 0 < CHUNK -> forall is_interrupted, is_interrupted EState = false ->
+  forall ss base fuel pieces x,
+    SrcTie3EncW.src_archive E key prefix si sl gmul CHUNK CIPHERBUF is_interrupted ss base fuel pieces = Ok x ->
+    Src3w.elw_current_ctr bytes x < 2 ^ 32 /\
+    Src3w.elw_current_ctr bytes x = nfull CHUNK (len (concat pieces)) + 1 /\
+    (forall i j, i < Src3w.elw_current_ctr bytes x -> j < Src3w.elw_current_ctr bytes x ->
+       SrcTie3EncW.nonce_of prefix i = SrcTie3EncW.nonce_of prefix j -> i = j).
+Proof. exact SrcTie3EncWCarry.src_nonces_distinct. Qed.
+Print Assumptions C07_nonces_distinct_src.
+Theorem C07_nonce_of_inj : forall prefix i j, i < 2 ^ 32 -> j < 2 ^ 32 ->
+  SrcTie3EncW.nonce_of prefix i = SrcTie3EncW.nonce_of prefix j -> i = j.
+Proof. exact SrcTie3EncWCarry.nonce_of_inj. Qed.
+Print Assumptions C07_nonce_of_inj.
+(* non-vacuity through the generated code: flushes anywhere change nothing; at counter 2^32 - 1 the next chunk is refused by a
+   panic (site 228), the counter does not wrap to a nonce already used *)
+Check SrcTie3EncWMasked.src_calls_example.
+Example C07_encw_ctr_never_wraps_nonvacuous :
+  match Src3g.AesGcm256_new SrcTie3CryptoEx.E_key gf_mul 2 3 GcmSpec.tc_key (SrcTie3EncWEx.ex_prefix ++ [255; 255; 255; 255]) [] with
+  | Ok c =>
+    let x := Src3w.mkELW bytes SrcTie3EncWEx.ex_base c GcmSpec.tc_key SrcTie3EncWEx.ex_prefix 64 (2 ^ 32 - 1) in
+    Src3w.elw_write Src3w.CHUNK_SIZE_verif Src3w.CIPHER_BUF_SIZE_verif SrcTie3CryptoEx.E_key gf_mul bytes SrcTie3EncW.bw_write_all
+                    1 2 3 228 x [1] = (x, Crash 228)
+  | _ => False
+  end.
+Proof. vm_compute. reflexivity. Qed.
